@@ -371,6 +371,35 @@ func scenarioTwin() int {
 			}
 			relayedPairs++
 			run.Eval(c.kind + "|" + c.path.Proto + "|" + kinds)
+			if !mA.IsRequest() && c.respond == nil && g.R.Intn(2) == 0 {
+				// the next response of the same transaction (or its retransmission): byte-identical
+				// headers, another status line
+				again := func(raw []byte) []byte {
+					i := bytes.Index(raw, []byte("\r\n"))
+					return append([]byte("SIP/2.0 200 Second answer"), raw[i:]...)
+				}
+				oa2 := send(pathA, again(rawA), idA)
+				ob2 := send(pathB, again(rawB), idB)
+				if len(oa2) != len(ob2) {
+					w.Net.WaitCase(idA, func(o []*wire.Obs) bool { return len(o) >= 2 }, w.BarrierWait)
+					w.Net.WaitCase(idB, func(o []*wire.Obs) bool { return len(o) >= 2 }, w.BarrierWait)
+					oa2, ob2 = w.Net.ForCase(idA), w.Net.ForCase(idB)
+				}
+				oa, ob = oa2, ob2
+				if len(oa2) != len(ob2) {
+					run.Violation("spelling or layout changes whether the second response of a transaction is relayed", detail(fmt.Sprintf("after the second response: canonical spelling %d outputs in all, respelled twin %d", len(oa2), len(ob2))))
+					continue
+				}
+				if len(oa2) == 2 {
+					qa, qb := twinProject(w, oa2[1], a, idA), twinProject(w, ob2[1], a+twinShift, idB)
+					if why := twinDiff(qa, qb); why != "" {
+						oa, ob = oa2[1:], ob2[1:]
+						run.Violation("spelling or layout changes how the second response of a transaction is relayed", detail(why))
+						continue
+					}
+					run.Eval(c.kind + "|second-response|" + kinds)
+				}
+			}
 			if run.WantSample() && i > 20 && len(rawA) < 1200 && strings.Contains(kinds, "compact") {
 				run.Sample(detail("pair agrees"))
 			}
